@@ -16,6 +16,9 @@ package synct
 //	peerclose                       peer closes its end
 //	gclose | close                  GracefulClose() | Close(err) on the transport
 //	hold | release                  block / unblock every client Write on the conn (loopy stalls in its flush)
+//	end                             last op of every case: release, Close(ErrConnClosing), cancel every RPC, close the peer,
+//	                                wait for every goroutine the case started; prints the final snapshot + `leak=<n>`
+//	                                (goroutines still alive beyond the count at `start`)
 //
 // snapshot: `<res> rpcs=<…> wire=<…> conn=<…>`, see snapshot().
 
@@ -27,6 +30,8 @@ import (
 	"fmt"
 	"io"
 	"net"
+	"os"
+	"runtime"
 	"strconv"
 	"strings"
 	"sync"
@@ -117,6 +122,8 @@ type clientConn struct {
 	rdone   chan struct{} // peer reader exited
 	closeWG sync.WaitGroup
 	started bool
+	ended   bool
+	baseG   int // runtime.NumGoroutine() before the case started anything
 	scOnce  sync.Once
 }
 
@@ -240,6 +247,7 @@ func (c *clientConn) start(f []string) string {
 		return "bad-op"
 	}
 	c.started = true
+	c.baseG = runtime.NumGoroutine()
 	cp, sp := net.Pipe()
 	c.cc = &gatedConn{Conn: cp, closed: make(chan struct{})}
 	c.sc = sp
@@ -421,6 +429,17 @@ func (c *clientConn) Op(f []string) string {
 	if f[0] == "start" {
 		return c.start(f)
 	}
+	if f[0] == "end" {
+		if !c.started {
+			return "nostart"
+		}
+		c.teardown()
+		settle()
+		return fmt.Sprintf("ok %s leak=%d", c.snapshot(), bubbleGoroutines()-3) // the bubble itself: synctest.Run, the testing wrapper and the goroutine running this op
+	}
+	if c.ended {
+		return "ended"
+	}
 	if c.ct == nil {
 		return "nostart"
 	}
@@ -482,10 +501,30 @@ func (c *clientConn) Op(f []string) string {
 	return res + " " + c.snapshot()
 }
 
-func (c *clientConn) Close() {
-	if !c.started {
+// bubbleGoroutines counts the goroutines of the current synctest bubble (all-goroutine traceback: the header of a
+// bubbled goroutine says `synctest bubble N`; only one bubble is alive at a time).
+func bubbleGoroutines() int {
+	buf := make([]byte, 1<<20)
+	n := runtime.Stack(buf, true)
+	cnt := 0
+	if os.Getenv("B1DBG") != "" {
+		os.Stderr.Write(buf[:n])
+	}
+	for _, l := range strings.Split(string(buf[:n]), "\n") {
+		if strings.HasPrefix(l, "goroutine ") && strings.Contains(l, "synctest bubble") {
+			cnt++
+		}
+	}
+	return cnt
+}
+
+func (c *clientConn) Close() { c.teardown() }
+
+func (c *clientConn) teardown() {
+	if !c.started || c.ended {
 		return
 	}
+	c.ended = true
 	c.cc.release()
 	if c.ct != nil {
 		c.ct.Close(transport.ErrConnClosing)
